@@ -54,12 +54,16 @@ def check(ctx):
     witness.check_fail_unit(ctx, 'C04.W', os.path.join(extract.VERIF, 'witness', 'f_argpass.cpp'), 'argument passing mode')
 
 
-def arg_var(fn, a):
+def arg_var(fn, a, allow_conv=False):
     """Variable an argument expression denotes, looking through forwarding and the copy/move construction of a
-    by-value parameter."""
+    by-value parameter (with allow_conv: also a converting construction to the parameter type)."""
     a = fn.strip_all_casts(a)
-    while fn.is_construct(a) and len(fn.nodes[a].get('args', [])) == 1 and (fn.callee(a) or {}).get('ctor') in ('copy', 'move'):
-        a = fn.strip_all_casts(fn.nodes[a]['args'][0])
+
+    def real_args(n):
+        return [x for x in fn.nodes[n].get('args', []) if fn.nodes[x]['cls'] != 'CXXDefaultArgExpr']
+    while fn.is_construct(a) and len(real_args(a)) == 1 and \
+            ((fn.callee(a) or {}).get('ctor') in ('copy', 'move') or allow_conv):
+        a = fn.strip_all_casts(real_args(a)[0])
     p = path(fn, a, resolve_refs=False)
     return root_var_id(p) if len(p) == 1 else None
 
